@@ -11,6 +11,8 @@ CONSTANTS
   GodMode = "object"
   DemesMode = "pure"
   PerturbMode = "pure"
+  HashMode = "ordered"
+  SFSMode = "copies"
   MaxTable = 100000
 SPECIFICATION TSpec
 CHECK_DEADLOCK FALSE
